@@ -12,7 +12,7 @@ TITLES = {
     '_slice_small': 'window slice of 0..2 entries: same',
     '_slice_witness': 'reachability: a forward-filled slice is reachable',
     '_listing_witness': 'reachability: a two-file listing is reachable',
-    '_ilsdrf_tree': 'tree walk: each qualifying file of each channel exactly once; property files per their own flags; stray / tmp. / non-channel files never listed',
+    '_ilsdrf_tree_witness': 'reachability: a channel below a timestamp-named non-channel directory is listed',
 }
 
 REPLAY_SLICE = '''
@@ -51,7 +51,7 @@ for i, sd in enumerate(SUBS):
         if present[k] and gone != i:
             open(os.path.join(ch, sd, name), 'w').close(); allf.append((t - T0, os.path.join(ch, sd, name)))
         k += 1
-if kw.get('stray') and gone != 1: open(os.path.join(ch, SUBS[1], 'tmp.metadata@%%d.h5' %% (T0 + 3605)), 'w').close()
+if kw.get('stray') and gone != 1: open(os.path.join(ch, SUBS[1], ('tmp.metadata@%%d.h5' if kind == 1 else 'tmp.rf@%%d.000.h5') %% (T0 + 3605)), 'w').close()
 st = None if start is None else datetime.timedelta(seconds=T0 + start)
 en = None if end is None else datetime.timedelta(seconds=T0 + end)
 props = ['drf_properties.h5'] if kind == 0 else ['dmd_properties.h5']
@@ -80,9 +80,40 @@ for _k, _kn in ((0, 'RF'), (1, 'metadata')):
         TITLES['_listing_fwd_' + _tag] = ('%s channel listing, %s: exactly the in-window files ascending%s, never raises, timestamped subdirs pruned from the walk'
                                           % (_kn, _gs, ' + latest earlier file for forward fill' if _k else ''))
         TITLES['_listing_rev_' + _tag] = '%s channel, %s: reverse listing == forward listing reversed (same set)' % (_kn, _gs)
-        if _k == 1 and _g != 1:
+        if (_k == 1 and _g != 1) or (_k == 0 and _g < 0):
             for _d in ('fwd', 'rev'):
                 TITLES['_listing_%s_%s_stray' % (_d, _tag)] = TITLES['_listing_%s_%s' % (_d, _tag)] + "; a stray 'tmp.' file lies in subdirectory 1"
+
+
+REPLAY_TREE = '''
+import os, tempfile, shutil, sys
+from checks.ch import listing as H           # oracle + tree description; H.L is the real list_drf module of the tree under test
+kw, start, recursive, reverse = %r, %r, %r, %r
+tree = H._mk_tree(kw.get('pA', True), kw.get('pM', True), kw.get('pB', True), kw.get('pL', True), kw.get('fA1', True), kw.get('fM', True))
+top = tempfile.mkdtemp()
+for d, (dirs, files) in tree.items():
+    os.makedirs(top + d, exist_ok=True)
+    for f in files: open(top + d + '/' + f, 'w').close()
+args = (kw.get('inc_drf', True), kw.get('inc_dmd', True), kw.get('p_drf'), kw.get('p_dmd'))
+try:
+    got = [p[len(top):] for p in H.L.ilsdrf(top + start, recursive=recursive, reverse=reverse, include_drf=args[0], include_dmd=args[1],
+                                            include_drf_properties=args[2], include_dmd_properties=args[3])]
+except Exception as e:
+    print('raised', type(e).__name__, e); shutil.rmtree(top); sys.exit(1)
+want = H._expected_tree(tree, start, recursive, reverse, *args)
+print('got', got); print('expected', want)
+shutil.rmtree(top)
+sys.exit(1 if (got != want or len(set(got)) != len(got)) else 0)
+'''
+
+for _si, _st in enumerate(('/t', '/t/chA', '/t/chA/2020-01-01T00-00-00')):
+    for _rec in (1, 0):
+        if _si == 0 and not _rec: continue
+        for _rev in (0, 1):
+            TITLES['_ilsdrf_tree_%d_%d_%d' % (_si, _rec, _rev)] = (
+                'ilsdrf(%s, recursive=%s, reverse=%s) over a tree with nested / legacy / timestamp-nested channels, stray and tmp. files, symbolic '
+                'presence of properties and data files, all include-flag combinations: exactly the qualifying files of every channel, once, '
+                'properties per their own flags, directories in sorted order' % (_st.replace('/t', '<top>', 1), bool(_rec), bool(_rev)))
 
 
 def grammar(rep, st):
@@ -147,5 +178,11 @@ def main(tier):
                 sigs[nm] = 'C14.listing.%s' % ('reverse_set' if rev else 'forward')
                 replays[nm + '_stray'] = (lambda k2, g2, r2: (lambda kw: REPLAY_LISTING % (dict(kw, kind=k2, gone=g2, stray=True), r2)))(k_, g_, rev)
                 sigs[nm + '_stray'] = sigs[nm]
+    for si_, st_ in enumerate(('/t', '/t/chA', '/t/chA/2020-01-01T00-00-00')):
+        for rec_ in (1, 0):
+            for rev_ in (0, 1):
+                nm = '_ilsdrf_tree_%d_%d_%d' % (si_, rec_, rev_)
+                replays[nm] = (lambda a, b, c: (lambda kw: REPLAY_TREE % (kw, a, bool(b), bool(c))))(st_, rec_, rev_)
+                sigs[nm] = 'C14.tree_walk'
     chx.report(rep, res, TITLES, replays=replays, sigs=sigs)
     return rep.finish()
